@@ -15,22 +15,25 @@ LWait(cfg, rq) == LET n == cfg.nphases  nrb == cfg.nranks * cfg.nbanks IN
 LService(cfg, rq) == cfg.postponing * (rq["tRP"] + rq["tRFC"] + 4 * cfg.nphases) + rq["tZQCS"] + rq["tRP"] + 4 * cfg.nphases
                      + LWait(cfg, rq)
 
-InitRef == [nref |-> 0, nzq |-> 0]
+InitRef == [nref |-> 0, nzq |-> 0, tzq |-> 0]
 DueRef(cfg, rq, k) == FloorCyclesN(k + cfg.postponing, cfg.ds["tREFI"].ps, cfg.fkhz) + LService(cfg, rq)
-DueZq(cfg, rq, k) == (k + 1) * cfg.zq_period + FloorCyclesN(cfg.postponing, cfg.ds["tREFI"].ps, cfg.fkhz) + LService(cfg, rq)
+\* ZQ calibration is piggy-backed on a refresh burst and its period timer restarts when a calibration completes
+\* (lenient reading of "recurs at its period"): each calibration follows the previous one (or start) within
+\* one period + one refresh burst interval + the service latency.
+DueZq(cfg, rq, last) == last + cfg.zq_period + FloorCyclesN(cfg.postponing, cfg.ds["tREFI"].ps, cfg.fkhz) + LService(cfg, rq) + rq["tZQCS"]
 
 RefStep(cfg, rq, s, e) ==
   CASE e.c = "REF" -> LET k == s.nref + 1  due == DueRef(cfg, rq, k) IN
          [s |-> [s EXCEPT !.nref = k],
           bad |-> IF cfg.refresh /\ e.t > due THEN {<<"refresh later than (k+N)*tREFI + L", k, e.t, due>>} ELSE {}]
-    [] e.c = "ZQCS" -> LET k == s.nzq + 1  due == DueZq(cfg, rq, k) IN
-         [s |-> [s EXCEPT !.nzq = k],
+    [] e.c = "ZQCS" -> LET k == s.nzq + 1  due == DueZq(cfg, rq, s.tzq) IN
+         [s |-> [s EXCEPT !.nzq = k, !.tzq = e.t],
           bad |-> IF cfg.zq_period > 0 /\ e.t > due THEN {<<"ZQCS later than its period allows", k, e.t, due>>} ELSE {}]
     [] e.c = "END" ->
          [s |-> s,
           bad |-> (IF cfg.refresh /\ e.t > DueRef(cfg, rq, s.nref + 1)
                    THEN {<<"refresh overdue at end of run", s.nref + 1, e.t, DueRef(cfg, rq, s.nref + 1)>>} ELSE {})
-                  \cup (IF cfg.refresh /\ cfg.zq_period > 0 /\ e.t > DueZq(cfg, rq, s.nzq + 1)
-                        THEN {<<"ZQCS overdue at end of run", s.nzq + 1, e.t, DueZq(cfg, rq, s.nzq + 1)>>} ELSE {})]
+                  \cup (IF cfg.refresh /\ cfg.zq_period > 0 /\ e.t > DueZq(cfg, rq, s.tzq)
+                        THEN {<<"ZQCS overdue at end of run", s.nzq + 1, e.t, DueZq(cfg, rq, s.tzq)>>} ELSE {})]
     [] OTHER -> [s |-> s, bad |-> {}]
 ====
